@@ -8,5 +8,14 @@ let table : (string * ((Model.z list -> Model.z list) * (Model.z list -> Model.z
   ("C20", (Model.run_c20, Model.chk_c20));
   ("C12", (Model.run_c12, Model.chk_c12));
   ("C18", (Model.run_c18, Model.chk_c18));
-  ("POOL", (Model.run_pool, Model.chk_pool_tmp));
+  ("C01", (Model.run_pool, Model.chk_c01));
+  ("C06", (Model.run_pool, Model.chk_c06));
+  ("C07", (Model.run_pool, Model.chk_c07));
+]
+
+(* optional diagnostics: which clause of the property failed *)
+let why : (string * (Model.z list -> Model.z list -> Model.z)) list = [
+  ("C01", Model.why_pool (Model.Zpos Model.XH));
+  ("C06", Model.why_pool (Model.Zpos (Model.XO (Model.XI Model.XH))));
+  ("C07", Model.why_pool (Model.Zpos (Model.XI (Model.XI Model.XH))));
 ]
